@@ -63,6 +63,7 @@ type ForwardedRequest struct {
 	AgentID  string // AgentHeader.AgentID (%08x)
 	Payload  []byte // decoded Body.Response
 	Answered bool
+	Instant  bool // answered by AnswerInstantly
 	Step     uint64
 }
 
@@ -268,6 +269,24 @@ func (s *ServiceClient) AnswerResponse(randID string, response []byte) {
 		}
 	}
 	s.SendJSON(SvcAgentResponse(randID, response))
+}
+
+// AnswerInstantly makes this service answer every agent request the moment the teamserver has
+// written it (zero latency: the answer is in the teamserver's receive buffer before the writing
+// goroutine has executed its next statement). answer maps the forwarded payload to the reply.
+func (s *ServiceClient) AnswerInstantly(answer func(payload []byte) []byte) {
+	if s.WS == nil {
+		return
+	}
+	s.WS.C.OnWrite = func() {
+		s.Pump()
+		for _, f := range s.Forwarded {
+			if !f.Answered {
+				f.Instant = true
+				s.AnswerResponse(f.RandID, answer(f.Payload))
+			}
+		}
+	}
 }
 
 // Pump parses whatever the teamserver has written so far.
